@@ -1972,3 +1972,48 @@ lx_datalines_pfx_harness!(4, 12, 6, lx_datalines_ascii_semi_n4, ascii_after_card
 // datalines4: ';' constant, then data / ';;;;' terminator characters
 lx_datalines_pfx_harness!(3, 16, 8, lx_datalines4_ascii_semi_n3, true, ascii_after_cards4_fixed, &[';']);
 lx_datalines_pfx_harness!(6, 16, 8, lx_datalines4_ascii_semi_n6, true, ascii_after_cards4_fixed, &[';']);
+
+// =============================================================================================
+// Plumbing: token start marks, tokens emitted at the current start / at a saved mark, error records
+// (C02/C03/C04/C09): every record is the cursor snapshot (byte, char, line of the position it was taken at).
+lx_harness! {
+    #[kani::unwind(5)]
+    fn lx_plumbing_marks() {
+        let t = Txt::<3, 16>::any(PFX, &[]);
+        kani::assume(t.n == 3);
+        let mut lx = setup(&t, &[LexerMode::Default]);
+        let pre = snapshot(&lx, &t);
+        // a token starts here; one char is consumed, a mark is taken, another char is consumed
+        lx.start_token();
+        lx.pre_advance();
+        let mark = lx.mark_token_start();
+        lx.pre_advance();
+        assert!(mark.0.get() as usize == t.byte_at(1) && mark.1.get() == t.char_at(1), "C02/C03: a saved mark is the cursor position");
+        assert!(super::buffer::verif::line_idx_get(mark.2) == t.pre_nl + t.nl_upto(1), "C04: a saved mark carries the line of its own position (not that of the pending token)");
+        assert!(lx.cur_token_byte_offset.get() as usize == t.byte_at(0) && lx.cur_token_start.get() == t.char_at(0) && super::buffer::verif::line_idx_get(lx.cur_token_line) == t.pre_nl, "C02/C03/C04: taking a mark leaves the pending token start alone");
+        // the pending token, then a token at the mark (as the eval-expression scanner does for trailing blanks)
+        lx.emit_token(TokenChannel::DEFAULT, TokenType::MacroString, Payload::None);
+        lx.emit_token_at_mark(TokenChannel::HIDDEN, TokenType::WS, Payload::None, mark);
+        let third: bool = kani::any();
+        if third {
+            lx.start_token();
+            lx.pre_advance();
+            lx.emit_token(TokenChannel::DEFAULT, TokenType::CatchAll, Payload::None);
+        }
+        lx.sh_emit_error(ErrorKind::MissingExpectedRParen);
+        let pi = check_common(&lx, &t, &pre);
+        assert!(pi == 2 + third as usize && shadow::tok_n() == pre.tok_n + 2 + third as usize, "C02: tokens as emitted");
+        let (a, b) = (shadow::tok(pre.tok_n), shadow::tok(pre.tok_n + 1));
+        assert!(a.byte_offset.get() as usize == t.byte_at(0) && b.byte_offset.get() as usize == t.byte_at(1), "C02: the pending token starts at its start, the marked token at the mark");
+        assert!(super::buffer::verif::line_idx_get(b.line) == t.pre_nl + t.nl_upto(1), "C04: a token emitted at a mark is on the mark's line");
+        if third {
+            let c = shadow::tok(pre.tok_n + 2);
+            assert!(c.byte_offset.get() as usize == t.byte_at(2) && super::buffer::verif::line_idx_get(c.line) == t.pre_nl + t.nl_upto(2), "C02/C04: start_token takes the cursor position and its line");
+        }
+        let e = lx.errors[lx.errors.len() - 1];
+        assert!(e.last_token().map(|x| x.get() as usize) == Some(shadow::tok_n() - 1), "C09: an error names the last token emitted before it");
+        kani::cover!(t.ch[0] == '\n' && t.ch[1] != '\n' && third, "mark taken on the line after the pending token's line");
+        kani::cover!(t.ch[1] == '\n' && t.ch[0].len_utf8() == 3);
+        std::mem::forget(lx);
+    }
+}
